@@ -288,7 +288,16 @@ func c15Parse(c *core.Case, o *core.Outcome) {
 			}
 		}
 		y.WriteString("stages:\n")
+		var cumW time.Duration
+		brokenFinished := 0
 		for _, st := range stages {
+			cumW += st.dur
+			// a stage that is already over is not part of the plan: whatever else it says is not looked at
+			spoil := ""
+			if stageStart != nil && !stageStart.Add(cumW).After(now) && r.IntN(3) == 0 {
+				spoil = pick(r, "mode", "rate")
+				brokenFinished++
+			}
 			first := true
 			line := func(s string) {
 				if first {
@@ -298,16 +307,28 @@ func c15Parse(c *core.Case, o *core.Outcome) {
 					y.WriteString("  " + s + "\n")
 				}
 			}
-			if st.modeStage {
+			if spoil == "mode" {
+				line("mode: no-such-mode")
+			} else if st.modeStage {
 				line("mode: " + st.mode)
 			}
 			if st.durStage {
 				line("duration: " + st.dur.String())
 			}
+			spoilt := false
 			for _, f := range engine.SortedKeys(st.fields) {
 				if st.atStage[f] {
+					if spoil == "rate" && (f == "rate" || f == "start-rate" || f == "stages") && !spoilt {
+						line(f + ": \"7/\"")
+						spoilt = true
+						continue
+					}
 					line(f + ": " + yamlQuoteIfNeeded(f, st.fields[f]))
 				}
+			}
+			if spoil == "rate" && !spoilt {
+				line("rate: \"7/\"")
+				line("stages: \"x\"")
 			}
 			if st.mode == "users" && st.concAt == "stage" {
 				line(fmt.Sprintf("concurrency: %d", st.conc))
@@ -504,6 +525,9 @@ func c15Parse(c *core.Case, o *core.Outcome) {
 		if len(kept) < ns {
 			o.AddObs("plans_with_dropped_stage", 1)
 		}
+		if brokenFinished > 0 {
+			o.AddObs("plans_with_malformed_finished_stage", 1)
+		}
 		if ns >= 2 && inherited > 0 {
 			ms := []string{}
 			for m := range modes {
@@ -549,10 +573,13 @@ func c15RunPlan(c *core.Case, o *core.Outcome) {
 	r := c.Rng("run")
 	ns := 2 + r.IntN(3)
 	type rst struct {
-		users bool
-		dur   time.Duration
-		keys  map[string]string
+		users   bool
+		dur     time.Duration
+		keys    map[string]string
+		inherit bool // the stage has no parameters of its own: it takes the default section's
 	}
+	defKeys := map[string]string{"VERIF_DEFAULT_A": "from-default", "VERIF_SHARED": "default-shared", "VERIF_DEFAULT_EMPTY": ""}
+	withDefaults := r.IntN(2) == 0
 	plan := make([]rst, ns)
 	preKey := "VERIF_PRE_EXISTING"
 	os.Setenv(preKey, "before")
@@ -569,6 +596,14 @@ func c15RunPlan(c *core.Case, o *core.Outcome) {
 			// a parameter whose value is the empty string is still a parameter: set, and empty
 			plan[k].keys[fmt.Sprintf("VERIF_EMPTY_%d", k%2)] = ""
 		}
+		if withDefaults && r.IntN(2) == 0 {
+			// several stages share the default section's parameters (rate stages: the evaluation is the observation point)
+			plan[k].users, plan[k].inherit = false, true
+			plan[k].keys = map[string]string{}
+			for dk, dv := range defKeys {
+				plan[k].keys[dk] = dv
+			}
+		}
 		total += plan[k].dur
 	}
 	maxDur := total + 5*time.Second
@@ -576,12 +611,22 @@ func c15RunPlan(c *core.Case, o *core.Outcome) {
 		// stop in the middle of the last stage
 		maxDur = total - plan[ns-1].dur/2
 	}
-	fmt.Fprintf(&y, "scenario: verifScenario\nlimits:\n  max-duration: %s\n  concurrency: 4\n  max-iterations: 0\n  ignore-dropped: true\ndefault:\n  distribution: none\n  jitter: 0\nstages:\n", maxDur)
+	fmt.Fprintf(&y, "scenario: verifScenario\nlimits:\n  max-duration: %s\n  concurrency: 4\n  max-iterations: 0\n  ignore-dropped: true\ndefault:\n  distribution: none\n  jitter: 0\n", maxDur)
+	if withDefaults {
+		y.WriteString("  parameters:\n")
+		for _, k := range engine.SortedKeys(defKeys) {
+			fmt.Fprintf(&y, "    %s: %s\n", k, yamlQuote(defKeys[k]))
+		}
+	}
+	y.WriteString("stages:\n")
 	for _, st := range plan {
 		if st.users {
 			fmt.Fprintf(&y, "- duration: %s\n  mode: users\n  concurrency: 2\n", st.dur)
 		} else {
 			fmt.Fprintf(&y, "- duration: %s\n  mode: constant\n  rate: 2/10ms\n", st.dur)
+		}
+		if st.inherit {
+			continue
 		}
 		y.WriteString("  parameters:\n")
 		for _, k := range engine.SortedKeys(st.keys) {
